@@ -162,7 +162,9 @@ Section SignRaw.
   Local Notation step := (step kdf digest shash open_box sk bytes branch_ok derive_sk sign zfix sfix nfix cfg).
 
   (* the witness template of mass-core's engine for the three script classes:
-     witness = [signature ++ [hash type]; redeem script], sha256(redeem) = program,
+     witness = [signature ++ [hash type]; redeem script] (in the implementation the first item is
+     the one-opcode script that pushes these bytes: the push opcode is not modelled),
+     sha256(redeem) = program,
      the signature verifies for the key in the redeem script over the signature hash of
      (hash type, tx, index, amount, redeem script), and the class's sequence condition holds *)
   Definition engine_template (u : uinfo) (t : tx) (i : nat) (ip2 : bool) : bool :=
